@@ -13,7 +13,21 @@ const MIN_NS: i128 = -377_705_023_201 * 1_000_000_000;
 const MAX_NS: i128 = 253_402_207_200 * 1_000_000_000 + 999_999_999;
 
 fn leeway(b: &mut Builder) -> (u64, u32) {
-    match b.rng.below(8) {
+    match b.rng.below(10) {
+        // centuries and millennia: now +- leeway is still a representable instant for a present-day clock
+        // (up to about 7900 years), but the amount is around or beyond what 64 bits of nanoseconds hold
+        8 => *b.rng.pick(&[
+            (9_223_372_036u64, 854_775_807u32),
+            (9_223_372_036, 854_775_808),
+            (9_223_372_037, 0),
+            (9_223_372_036, 0),
+            (10_000_000_000, 0),
+            (18_446_744_073, 709_551_615),
+            (18_446_744_073, 709_551_616),
+            (100_000_000_000, 1),
+            (240_000_000_000, 999_999_999),
+        ]),
+        9 => (9_223_372_030 + b.rng.below(14), b.rng.below(1_000_000_000) as u32),
         0 => (0, 0),
         1 => (0, 1),
         2 => (1, 0),
